@@ -192,7 +192,7 @@ def check_hier(rng, X, w, desc):
     # queries: training points, far away points, the box corners
     lo, hi = X.min(0), X.max(0)
     span = np.maximum(hi - lo, 1e-12)
-    Q = [X[: min(n, 50)], lo + span * rng.random((20, d)), lo + span * rng.uniform(-1e3, 1e3, (20, d)),
+    Q = [X[: min(n, 50)], lo + span * rng.random((20, d)), X[:1], lo + span * rng.uniform(-1e3, 1e3, (20, d)),
          rng.choice([-1.0, 1.0], (10, d)) * 10 ** rng.uniform(3, 100, (10, d))]
     for qi, q in enumerate(Q):
         try:
@@ -204,7 +204,7 @@ def check_hier(rng, X, w, desc):
         p = np.asarray(p)
         if p.shape != (len(q),) or p.dtype.kind not in "iu" or p.min() < 0 or p.max() >= K:
             bad.append(("hier-predict-range", f"predict labels outside [0,{K}) for query class {qi}"))
-        if qi < 3:
+        if qi < 4:
             try:
                 with np.errstate(all="ignore"):
                     pp = h.predict_proba(q)
